@@ -79,6 +79,21 @@ def generate(rng, tier):
     # hidden state between calls would break honest logins only after a particular history (e.g. a client that
     # first talked to a server announcing its own group): interleave such calls with the logins so that every
     # shard of the run sees standard logins *after* non-standard-group client calls on the same thread
+    # the same account used with a wrong and then the right password on one thread (and the other way round)
+    hist = []
+    for _ in range(40 if tier == "quick" else 600):
+        us, ps, wrong = cred(rng), cred(rng), cred(rng)
+        if pyref.normalize(wrong) == pyref.normalize(ps): continue
+        salt, b, a1, a2, a3 = rbytes(rng, 32), rbytes(rng, 32), rbytes(rng, 32), rbytes(rng, 32), rbytes(rng, 32)
+        s = pyref.Session(us, ps, salt, b, a2)
+        if s.A % N == 0 or s.B % N == 0: continue
+        def cnew(pw, a, kind):
+            e = client_expect(us, pw, 7, N, s.B32, salt, a)
+            return Case("cli.new %s %s 7 %s %s %s | %s" % (enc(us), enc(pw), N_LE.hex(), s.B32.hex(), salt.hex(), a.hex()), kind, "ok %s %s ~32" % (e["A32"].hex(), e["M1"].hex()))
+        hist.append(cnew(wrong, a1, "history:wrong-password-first"))
+        hist.append(Case(login_line(us, ps, flipcase(rng, us), flipcase(rng, ps), rng.randrange(6), salt, b, a2, rbytes(rng, 16)), "history:right-password-after-wrong", agree, s))
+        hist.append(cnew(wrong, a3, "history:wrong-password-after-right"))
+    cs += hist
     inter = []
     for i, c in enumerate(cs):
         if i % 40 == 0:
